@@ -43,7 +43,10 @@ import (
 
 func init() { commands["C11"] = c11_runC11 }
 
-const c11Finding = "C11-nested-module-path"
+// C11 has no recorded finding at present.  The former C11-nested-module-path (resolveModule
+// looked every component of a nested module path up in the root module) was repaired in /repo:
+// cases with deep dotted names are judged like every other case, so a recurrence is an unlisted
+// Spec violation (and a mismatch with the Impl model, which descends).
 
 // ---------------------------------------------------------------- identities
 
@@ -1569,16 +1572,16 @@ func (r *c11Run) runCase(c *c11Case, rng *RNG) {
 			continue
 		}
 		e.R.H("target", fmt.Sprintf("%s: reachable=%v", t.what, reach))
+		if t.deep {
+			// names with two or more intermediate modules (the shape of the repaired finding)
+			e.R.H("deep_name_target", fmt.Sprintf("%s: reachable=%v", t.what, reach))
+		}
 		if reach != t.impl {
 			mismatch = true
 			e.R.Mismatch(key, fmt.Sprintf("%s %q reachable=%v via %s", t.what, t.name, reach, witness), fmt.Sprintf("Impl reachable=%v", t.impl), "reachability of the object registered under the name")
 		}
 		if reach {
-			fid := ""
-			if t.deep && !mismatch {
-				fid = c11Finding
-			}
-			e.R.Spec(key, fmt.Sprintf("the object registered under %s name %q is still reachable: %s", t.what, t.name, witness), fid)
+			e.R.Spec(key, fmt.Sprintf("the object registered under %s name %q is still reachable: %s", t.what, t.name, witness), "")
 		}
 	}
 
@@ -1680,11 +1683,7 @@ func (r *c11Run) runCase(c *c11Case, rng *RNG) {
 		if c.style != "A" {
 			if gid, ok := gids.idOf(res); ok {
 				if nm, bad := deniedNodes[gid]; bad {
-					fid := ""
-					if c11Deep(nm) && !mismatch {
-						fid = c11Finding
-					}
-					e.R.Spec(caseTxt, fmt.Sprintf("script obtained the object registered under removed/replaced name %q", nm), fid)
+					e.R.Spec(caseTxt, fmt.Sprintf("script obtained the object registered under removed/replaced name %q", nm), "")
 				}
 			}
 		} else if c11IdentityKind(res) {
@@ -1694,11 +1693,7 @@ func (r *c11Run) runCase(c *c11Case, rng *RNG) {
 					continue
 				}
 				if c11Fingerprint(en.ids.objs[t.mid]) == fp {
-					fid := ""
-					if t.deep && !mismatch {
-						fid = c11Finding
-					}
-					e.R.Spec(caseTxt, fmt.Sprintf("script obtained the object registered under removed/replaced name %q", t.name), fid)
+					e.R.Spec(caseTxt, fmt.Sprintf("script obtained the object registered under removed/replaced name %q", t.name), "")
 				}
 			}
 		}
@@ -1707,21 +1702,22 @@ func (r *c11Run) runCase(c *c11Case, rng *RNG) {
 			want := c.ovs[a.ovIdx].val
 			if !c11Same(res, want) {
 				if _, isRes := want.(object.AttrResolver); !isRes {
-					fid := ""
-					if c11Deep(c.ovs[a.ovIdx].name) && !mismatch {
-						fid = c11Finding
-					}
-					e.R.Spec(caseTxt, fmt.Sprintf("override %q is not what the script observes (got %s)", c.ovs[a.ovIdx].name, res.Inspect()), fid)
+					e.R.Spec(caseTxt, fmt.Sprintf("override %q is not what the script observes (got %s)", c.ovs[a.ovIdx].name, res.Inspect()), "")
 				}
 			}
 		}
 	}
 	// a path that does not exist in the Spec state but exists in Impl, or vice versa, is covered by
 	// the two Spec checks above; record how often Impl and Spec differ at all
+	if mismatch {
+		e.R.H("case_outcome", "Go differs from the Impl model")
+	}
 	if rp.same {
 		e.R.H("impl_vs_spec", "same state")
 	} else {
-		e.R.H("impl_vs_spec", "differ (nested module path)")
+		// since the repair of resolveModule Impl = Spec on every configuration (initCfg_eq_spec)
+		e.R.H("impl_vs_spec", "differ")
+		e.R.Mismatch(key, "-", "Impl state differs from Spec state", "the oracle's Impl and Spec states of Config.init must be equal (Risor.C11.initCfg_eq_spec)")
 	}
 
 	// ---- independence (style A): bystanders built before and after are untouched
@@ -1817,8 +1813,6 @@ func c11Contains(xs []string, s string) bool {
 	}
 	return false
 }
-
-func c11Deep(name string) bool { return len(strings.Split(name, ".")) >= 4 }
 
 func c11Bucket(n int) string {
 	switch {
@@ -2051,7 +2045,9 @@ func c11_runC11(e *Env) {
 	rng := e.Rng.Fork()
 	styles := []string{"A", "B"}
 
-	// 0. the minimal instances of the known finding and their shallow (conforming) siblings
+	// 0. the minimal instances of the repaired finding C11-nested-module-path (names with two
+	// intermediate modules; on a tree without the repair these cases are unlisted violations) and
+	// their shallow siblings
 	mkNested := func() map[string]object.Object {
 		c := object.NewBuiltinsModule("c", map[string]object.Object{"f": c11Noop("f")})
 		b := object.NewBuiltinsModule("b", map[string]object.Object{"c": c, "f": c11Noop("f")})
@@ -2061,6 +2057,21 @@ func c11_runC11(e *Env) {
 		for _, n := range []string{"a.b.c.f", "a.b.f", "a.f", "a.b.c", "a.b", "a"} {
 			r.runCase(&c11Case{style: st, host: mkNested(), hostDesc: "a{b{c{f},f},f}", denies: []string{n}, kind: "fixed nested"}, rng.Fork())
 			r.runCase(&c11Case{style: st, host: mkNested(), hostDesc: "a{b{c{f},f},f}", ovs: []c11Ov{{n, c11Noop("replacement")}}, kind: "fixed nested"}, rng.Fork())
+		}
+	}
+
+	// … and the other face of the same defect: the root module has a member named like the inner
+	// module (a.c beside a.b.c), which the pre-fix resolveModule edited instead of a.b.c
+	mkSibling := func() map[string]object.Object {
+		c := object.NewBuiltinsModule("c", map[string]object.Object{"f": c11Noop("f")})
+		b := object.NewBuiltinsModule("b", map[string]object.Object{"c": c})
+		c2 := object.NewBuiltinsModule("c", map[string]object.Object{"f": c11Noop("f")})
+		return map[string]object.Object{"a": object.NewBuiltinsModule("a", map[string]object.Object{"b": b, "c": c2})}
+	}
+	for _, st := range []string{"W", "B", "A"} {
+		for _, n := range []string{"a.b.c.f", "a.c.f"} {
+			r.runCase(&c11Case{style: st, host: mkSibling(), hostDesc: "a{b{c{f}},c{f}}", denies: []string{n}, kind: "fixed nested"}, rng.Fork())
+			r.runCase(&c11Case{style: st, host: mkSibling(), hostDesc: "a{b{c{f}},c{f}}", ovs: []c11Ov{{n, c11Noop("replacement")}}, kind: "fixed nested"}, rng.Fork())
 		}
 	}
 
